@@ -61,8 +61,10 @@ class Tape:
         if k <= 0:
             raise ValueError('empty range')
         i = len(self.log)
-        if i >= self.limit:
-            raise TapeExhausted()
+        if k > 1:
+            self.nontrivial = getattr(self, 'nontrivial', 0) + 1
+            if self.nontrivial > self.limit:
+                raise TapeExhausted()
         if REPLAY_TAPE is not None:
             v = REPLAY_TAPE[i] if i < len(REPLAY_TAPE) else 0
             v = v % k
